@@ -491,17 +491,26 @@ func runC09(c *mc.Ctx) {
 		for _, f := range five {
 			w := c.Worker()
 			w.State()
-			b := bytes.Repeat([]byte{f}, n)
+			b := make([]byte, n) // non-uniform content: every byte position distinguishable
+			for i := range b {
+				b[i] = f ^ byte(i*37+i>>8)
+			}
 			b[n-1] ^= 0x80
 			c09EvalMurmur(w, c09Murmur{Seed: 0xfba4c795, Data: mc.Hex(b)})
 			w.Done()
 		}
 	}
-	for n := 10; n <= 70; n++ { // longer inputs, structured
+	for n := 10; n <= 70; n++ { // longer inputs, structured: uniform fills and position-dependent content
 		for _, f := range five {
 			w := c.Worker()
 			w.State()
 			c09EvalMurmur(w, c09Murmur{Seed: 0x9747b28c, Data: mc.Hex(bytes.Repeat([]byte{f}, n))})
+			b := make([]byte, n)
+			for i := range b {
+				b[i] = f ^ byte(i*29+1)
+			}
+			w.State()
+			c09EvalMurmur(w, c09Murmur{Seed: 0xfba4c795, Data: mc.Hex(b)})
 			w.Done()
 		}
 	}
